@@ -30,9 +30,35 @@ func (c *Cas) GetBackend() backends.CacheBackend {
 	return c.backend
 }
 
+// writeThroughBackend is implemented by backends that write to more than one store (local + remote).
+type writeThroughBackend interface {
+	// ExistsInAllStores reports whether every store that Set writes to already holds the key
+	ExistsInAllStores(ctx context.Context, path string, key string) (bool, error)
+}
+
+// isStored reports whether a write of the digest can be skipped.
+// For a write-through backend the digest must be present in every store: a blob that is
+// only in the local cache (e.g. from a build without the remote) still has to reach the
+// remote, otherwise target results written there reference a blob other machines cannot get.
+func (c *Cas) isStored(ctx context.Context, digest string) (bool, error) {
+	writeThrough, ok := c.backend.(writeThroughBackend)
+	if !ok {
+		return c.Exists(ctx, digest)
+	}
+
+	if cached, ok := c.keyExistsCache.Load(digest); ok && cached.(bool) {
+		return true, nil
+	}
+	stored, err := writeThrough.ExistsInAllStores(ctx, "cas", digest)
+	if err == nil && stored {
+		c.keyExistsCache.Store(digest, true)
+	}
+	return stored, err
+}
+
 // Write writes a digest for a given reader
 func (c *Cas) Write(ctx context.Context, digest string, reader io.Reader) error {
-	if exists, err := c.Exists(ctx, digest); exists && err == nil {
+	if exists, err := c.isStored(ctx, digest); exists && err == nil {
 		// If the digest already exists, we don't need to write it again
 		return nil
 	}
